@@ -109,6 +109,15 @@ Roles.NewPassCode / SetupWithCode     | passCode{Tried,Consumed,Valid,Expire}| p
 Roles.VerifySelfToken / roles.Exchange| role record; real clock (Exchange)   | roles; usage-realclock (roles.Exchange)
 Roles.GetPassCode / List / Get        | read-only views                      | not a verification path; not exercised
 
+Caller's memory (own.go): []byte arguments of Sign, Check, CheckJSON, CheckChallenge, Sessions.New, HS256.Sign /
+Verify and the fields of a SignedRSABlock given to RSATimeSigner.Check are sub-slices, with spare capacity behind
+them (0, 1, 31, 32, 33 bytes and the rest of a page), of a scratch page that must be unchanged after the call and is
+then recycled by the caller; every returned slice (Sign, SignJSON, NewSignedChallenge, the payloads of Check /
+CheckJSON / Sessions.Check, the fields of issued RSA blocks, Token.Payload / Signature, HS256.Sign) is HELD and looked
+at again after the following calls: streams own-signer (histories: scratch buffer reused with equal / other lengths,
+sub-slices of one record, capacities around the size of a MAC, seeded) and usage-own.  Keys passed to New /
+NewSessions / NewHS256 are kept by reference by design (the caller must not recycle a key buffer): not scribbled.
+
 Not covered and why: a nil *SignedRSABlock, a typed-nil Verifier and a Tokener
 returning nil are caller errors that panic before any credential is looked at;
 RemoteCard (network) is outside the anchors.
@@ -287,8 +296,9 @@ type run struct {
 	out   *hx.Out
 	i     int
 	ntok  int
-	scale int      // size multiplier (1 quick)
-	hist  []string // when set: the history the next emitted verification case is the last step of
+	scale int         // size multiplier (1 quick)
+	held  []heldSlice // results kept (the slices themselves) for a later look
+	hist  []string    // when set: the history the next emitted verification case is the last step of
 }
 
 func (r *run) emit(c *Case) {
